@@ -31,8 +31,9 @@ def tally(ms):
 
 r1 = [m for m in metas if m.get("round") == 1]
 r2 = [m for m in metas if m.get("round") == 2]
+r3 = [m for m in metas if m.get("round") == 3]
 rej = [m for m in metas if m.get("rejected")]
-t1, t2 = tally(r1), tally(r2)
+t1, t2, t3 = tally(r1), tally(r2), tally(r3)
 final_fi = sum(1 for m in metas if ((m.get("checks") or {}).get(m["property"], {}).get("kind") == "failing-input"))
 tfired = sum(1 for m in metas if (m.get("checks") or {}).get(m["property"], {}).get("broken_obligations"))
 
@@ -42,16 +43,16 @@ The machinery was tested against realistic breakage written by **independent sub
 agent per property received only the property's text and a scratch git worktree of `/repo` (under
 `/tmp`, nothing from `/verif`), and was asked for two changes that break the property while compiling
 and passing the existing tests, each needing something specific to manifest, with a demonstration
-that fails with the change and passes without. Two rounds were run ({len(r1)} + {len(r2)} changes; in the
-second round each agent was also told which changes already existed for its property and had to find
-different mechanisms). Each change was confirmed here before being kept: `tools/seed_eval.py` runs the
+that fails with the change and passes without. Three rounds were run ({len(r1)} + {len(r2)} + {len(r3)} changes; from the
+second round on each agent was also told which changes already existed for its property and had to
+find different mechanisms). Each change was confirmed here before being kept: `tools/seed_eval.py` runs the
 demonstration on the unchanged tree (must pass), applies the patch (`git apply`), runs the
 demonstration again (must fail), runs `./check <property> --tier quick`, and restores the tree;
 `tools/seed_confirm.py` applies each patch in a scratch worktree and runs the pinned suite of
 `/root/.vp/BASELINE.json`, comparing with its `stable_pass` list (`meta.json["suite"]`). Everything is
 kept under `/verif/seeded/<id>/` (`patch.diff`, `demo.py`, the agent's `notes.md`, `meta.json` with the
 property, what the change needs to manifest, what was run, the first and the final verdict; ids `-A`,
-`-B` are round 1, `-C`, `-D` round 2). None of these changes is committed in `/repo`. Three round-1
+`-B` are round 1, `-C`, `-D` round 2, `-E`, `-F` round 3). None of these changes is committed in `/repo`. Three round-1
 patches (C05-A, C06-A, C18-B) no longer applied after later `fix:` commits touched the same lines and
 were ported by hand to the current tree (noted in their `notes.md`).
 
@@ -59,6 +60,7 @@ were ported by hand to the current tree (noted in their `notes.md`).
 |---|---|---|---|---|---|
 | round 1 | {len(r1)} | {t1['failing-input']} | {t1['no-failing-input-found']} | {t1['missed']} | {t1['patch did not apply (ported)']} did not apply, {t1['exit 2 (infrastructure)']} exit 2 |
 | round 2 (checks as strengthened after round 1) | {len(r2)} | {t2['failing-input']} | {t2['no-failing-input-found']} | {t2['missed']} | — |
+| round 3 (checks as strengthened after round 2) | {len(r3)} | {t3['failing-input']} | {t3['no-failing-input-found']} | {t3['missed']} | {t3['patch did not apply (ported)']} did not apply |
 
 **Every miss had the same cause: the generator did not reach the input the change needs** — an
 entry point (stand-alone `Column`, `SeriesSchema`, `MultiIndex`, model `Config`), an option
@@ -89,8 +91,7 @@ for m in metas:
     print(f"| {m['id']} | {esc(t)[:120]} (`{files[:60]}`) | {first(m)} | {esc(m.get('strengthening', '—'))} | {chk.get('kind')}: {how} |")
 print("""
 Limits this campaign showed, stated plainly: (1) the strength of every check is bounded by its
-generator — the catch rate at first sight rose from about a third to about a half between the rounds,
-not to one; (2) regions of known findings must be predicates on the *case*, as narrow as the
+generator — the catch rate at first sight rose from round to round (table above), not to one; (2) regions of known findings must be predicates on the *case*, as narrow as the
 defect: C07-A, C20-A and C10-C hid inside regions that were drawn too wide until an entry point
 outside the region was added or the region was narrowed; (3) a seeded change can break a *proof
 obligation of another property's driver* — drivers now import only model and generated files; (4) the
